@@ -17,7 +17,8 @@ RULE = ("random orthogonal cells (1-6 atoms), grids 12-32, slice thickness scala
         "explicit tuple (with/without entrance plane -1), builder Probe/PlaneWave, detector none/annular/flexible/pixelated/"
         "segmented, potential kind Potential/PotentialArray/CrystalPotential/FrozenPhonons, eager or lazy; non-trivial = at "
         "least 2 exit planes of which one is strictly inside the specimen; distinct = distinct case signature")
-CLAUSES = ["plane:values", "last-equals-full:values", "thickness-axis", "entrance-plane:values"]
+CLAUSES = ["plane:values", "last-equals-full:values", "thickness-axis", "entrance-plane:values", "planes-from-spec",
+           "last-plane-is-exit-surface"]
 QUICK = dict(n=28, time=50)
 THOROUGH = dict(n=640, time=480, shards=16)
 
@@ -140,6 +141,20 @@ def check(ctx, case):
 
     nslices = len(arrays[0].slice_thickness)
     planes = list(pot.exit_planes)
+    # independent model of the planes the specification asks for: an explicit tuple is taken literally; an integer k
+    # means "entrance plane, then every k-th slice", and the series always ends at the exit surface (the statement's
+    # "the last exit plane equals the full simulation"); None means the exit surface only
+    if isinstance(ep, int):
+        want_planes = [nslices - 1] if ep >= nslices else [-1] + list(range(ep - 1, nslices, ep))
+        if want_planes[-1] != nslices - 1:
+            want_planes.append(nslices - 1)
+    elif ep is None:
+        want_planes = [nslices - 1]
+    else:
+        want_planes = list(ep)
+    ctx.expect(planes == want_planes, "planes-from-spec", got=planes, want=want_planes, nslices=nslices)
+    if not isinstance(ep, (list, tuple)):
+        ctx.expect(planes[-1] == nslices - 1, "last-plane-is-exit-surface", planes=planes, nslices=nslices)
     ctx.nontrivial(len(planes) >= 2 and any(0 <= p < nslices - 1 for p in planes))
 
     # thickness axis vs float64 cumulative sum
